@@ -157,4 +157,35 @@ def finishOld (st : St) (id : Nat) (r : Req) (res : Result) : Option (St × List
     ({ st1 with reqs := erase st1.reqs id, called := st1.called ++ [r.serial] },
      [⟨r.serial, res, outs, st.now - r.born⟩])
 
+/-! ### as found before patches/C15-04: ids are handed out blindly, the ring stores bare ids
+
+`ReqId req_id = ++req_id_alloc_; … requests_[req_id] = req; timeout_monitor_.add(req_id);` and
+`onRequestTimeout(req_id)` looked the id up without knowing which request the entry was for. -/
+
+def lookupOld (st : St) (sid : Nat) : St × Nat :=
+  if st.servers = 0 then refuse st
+  else
+    let id := (st.alloc + 1) % 65536
+    ({ st with alloc := id,
+               reqs := (id, { serial := st.nextSerial, script := st.scripts.getD sid [], born := st.now })
+                        :: erase st.reqs id,
+               r0 := (id, st.nextSerial) :: st.r0,
+               valueNumber := st.valueNumber + 1,
+               nextSerial := st.nextSerial + 1 }, id)
+
+def onTimeoutOld (acc : St × List Event) (t : Token) : St × List Event :=
+  match find acc.1.reqs t.1 with
+  | none => acc
+  | some r =>
+    let (st', e) := finish acc.1 t.1 r { status := .timeout }
+    (st', acc.2 ++ e)
+
+def tickOld (st : St) : St × List Event :=
+  if st.valueNumber = 0 then (st, [])
+  else
+    let items := st.r1.reverse
+    let st1 := { st with r0 := [], r1 := st.r2, r2 := st.r3, r3 := st.r4, r4 := st.r0,
+                         valueNumber := st.valueNumber - items.length, now := st.now + 1 }
+    items.foldl onTimeoutOld (st1, [])
+
 end Tbox.C15.Orig
